@@ -232,23 +232,32 @@ class _MetricCache(defaultdict):
     if not self:
       return (None, [])
     if self.strategy:
+      # choose and pop under one lock acquisition: a strategy may already have
+      # taken the chosen metric out of its own bookkeeping (bucketmax), which a
+      # store() for that metric in between would trip over
       with self.lock:
         metric = self.strategy.choose_item()
-    else:
-      # Avoid .keys() as it dumps the whole list
-      metric = next(iter(self))
-    if metric is None:
-      return (None, [])
+        if metric is None:
+          return (None, [])
+        datapoint_index = self._pop_locked(metric)
+      self._check_available_space()
+      return (metric, sorted(datapoint_index.items(), key=by_timestamp))
+    # Avoid .keys() as it dumps the whole list
+    metric = next(iter(self))
     return (metric, self.pop(metric))
 
   def get_datapoints(self, metric):
     """Return a list of currently cached datapoints sorted by timestamp"""
     return sorted(self.get(metric, {}).items(), key=by_timestamp)
 
+  def _pop_locked(self, metric):
+    datapoint_index = defaultdict.pop(self, metric)
+    self.size -= len(datapoint_index)
+    return datapoint_index
+
   def pop(self, metric):
     with self.lock:
-      datapoint_index = defaultdict.pop(self, metric)
-      self.size -= len(datapoint_index)
+      datapoint_index = self._pop_locked(metric)
     self._check_available_space()
 
     return sorted(datapoint_index.items(), key=by_timestamp)
